@@ -139,6 +139,10 @@ def free_layout(stmts, rng, user_names, p_break=0.35, p_comment=0.25, p_join=0.2
                     p += 2 if (text[p] == q and p + 1 < b - 1 and text[p + 1] == q) else 1
                     bounds.append(p)
                 cuts.append((rng.choice(bounds), True))
+        if s.name and s.kind not in ("end_block_data", "error_stop") and rng.random() < 0.2:
+            # the construct name alone on the first line:  "nm: &" / "keyword ..."
+            cuts.append((0, False))
+            feat("break_after_name")
         cuts = sorted(set(cuts))
         # drop cuts that fall inside a literal unless marked as literal cuts
         pieces = []
